@@ -27,7 +27,7 @@ RULE = ("payload trees (nesting <= 6) holding class-tagged dicts at any depth: t
 ASSUMPTIONS = ["CPython audit events cover import/exec/open/socket/subprocess/ctypes side effects", "marshal byte-level fuzz excluded (quantifier is over payload trees)",
                "converters registered by the harness itself are exempt, as the statement says"]
 REQUIRED_REACH = ["converter_withdrawn_during_decode_ok", "decoded_ok", "rejected", "must_raise_checked", "audit_allowed_events", "exceptions_built", "pyro_objects_built", "mutants_decoded", "converter_exemption_checked", "near_miss_tags_checked", "decodes_from_memoryview", "decodes_from_bytearray", "converter_history_decodes", "bulk_payloads"]
-SHARD_TIMEOUT = {"quick": 220, "thorough": 2400}
+SHARD_TIMEOUT = {"quick": 480, "thorough": 2400}
 
 SAFE_TAGS = ["Pyro5.core.URI", "Pyro5.client.Proxy", "Pyro5.server.Daemon", "Pyro5.util.SerpentSerializer", "Pyro5.util.MarshalSerializer",
              "Pyro5.util.JsonSerializer", "Pyro5.util.MsgpackSerializer", "Pyro5.core._ExceptionWrapper", "struct.error",
